@@ -25,7 +25,7 @@ TB_STUB = ['kani::stub of bytes::BytesMut::reserve_inner by a function that asse
 PROPS = {
     'C10': dict(
         level='proof',
-        verus_units=['broker_bus_listener'],
+        verus_units=['broker_bus_listener', 'broker_handlers_bus_listener'],
         kani=[dict(package='aldrin-core', injections=[KANI_CORE_BUS], jobs=4)],
         trusted_base=TB_VERUS + TB_KANI + ['BusListenerFilter is an opaque hashable key in the Verus unit (key-model axiom)'],
         assumptions=['handlers (start_bus_listener, emit_bus_event, process_loop_result) use these predicates as the '
